@@ -32,4 +32,20 @@ def saveLoad (st : St) : St :=
     serverName := st.serverName,
     config := st.config }
 
+/-- what `loadSession` needs of a stored session: the channel list of a nickless session and
+the invitations are lower-cased, `created`/`lastNonPing` do not trigger the fallbacks for
+snapshots written by old versions (or the fallback yields the same value) -/
+def sessCanonB (s : Session) : Bool :=
+  (s.nick != "" || s.channels.all fun ch => chanToLower ch == ch) &&
+  (s.invitedTo.all fun ch => chanToLower ch == ch) &&
+  (decide (0 < s.created) || s.created == (s.id.id : Int)) &&
+  (s.lastNonPing != zeroTime || s.lastActivity == zeroTime)
+
+/-- `Canon` as a Boolean -/
+def canonB (st : St) : Bool :=
+  (st.sessions.all fun e => sessCanonB e.2) &&
+  !AMap.contains st.nicks "" &&
+  decide (AMap.keys st.svsholds).Nodup &&
+  (st.svsholds.all fun e => nickToLower e.1 == e.1)
+
 end Robust.Irc
